@@ -6,6 +6,7 @@ import WuffsVerif.Model.WCore.NoRec
   tb <type>                     -> lo hi | reject                 (bcheckTypeExpr1)
   bounds <n> <fact>*n <expr>    -> lo:hi per node, pre-order | reject      (bcheckExpr)
   facts <n> <fact>*n <stmt>     -> <m> <fact>*m | reject          (bcheckAssignment, scalar)
+  prove <n> <fact>*n <cond>     -> ok | fail | reject             (bcheckAssert without `via`)
   norec <n> (<k> <callee>*k)*n  -> ok | cycle                     (checkNoRecursiveFuncs)
   <type> = base min max  (min / max decimal or _)
   <expr> = c <int> | v <name> <type> | u <op> e | b <op> l r | as <type> e | a <op> <n> e*n
@@ -181,6 +182,20 @@ def c01Step (l : List String) : String :=
           match checkStmt fs s with
           | none => "reject"
           | some fs' => toString fs'.length ++ (String.join (fs'.map fun f => " " ++ showExpr f))
+        | _ => "bad-op"
+      | none => "bad-op"
+  | "prove" :: n :: rest =>
+    match n.toNat? with
+    | none => "bad-op"
+    | some n =>
+      match parseExprs n rest [] with
+      | some (fs, rest) =>
+        match parseExpr rest with
+        | some (c, []) =>
+          match proveAssert fs c with
+          | none => "reject"
+          | some true => "ok"
+          | some false => "fail"
         | _ => "bad-op"
       | none => "bad-op"
   | "norec" :: n :: rest =>
